@@ -17,68 +17,11 @@ QC = 'beanquery.query_compile'
 # ----------------------------------------------------------------------
 # R-3VL
 
-def _bool_system(P, clsname, classes):
-    ci = P.cls(QC, clsname)
-    call = ci.methods.get('__call__')
-    if call is None:
-        raise AnalysisError(f'anchor vanished: {clsname}.__call__')
-    loopvar = {}
-
-    def make_machine(cls):
-        def call_hook(e, st, m):
-            # arg(context): evaluating the current argument yields its class value
-            if isinstance(e.func, ast.Name) and e.func.id in st and isinstance(st[e.func.id], finite.Sym) \
-                    and st[e.func.id].name == 'ARG':
-                m.events.append(('eval',))
-                return cls
-            return NotImplemented
-        return finite.Machine(call=call_hook, names={'self': finite.Sym('self'), 'context': finite.Sym('ctx')})
-
-    pre, loop, post = finite.split_loop(call.node)
-    it = loop.iter
-    if not (isinstance(it, ast.Attribute) and isinstance(it.value, ast.Name) and it.value.id == 'self'):
-        raise AnalysisError(f'{clsname}.__call__: loop does not iterate an attribute of self')
-    return call, finite.loop_system(call.node, classes, make_machine, lambda cls: finite.Sym('ARG'))
 
 
 V = finite.Sym('V')
 
 
-def rule_3vl(P) -> RuleResult:
-    res = RuleResult('R-3VL')
-    res.exhaustive = True
-    # specification automata, written from the property statement
-    specs = {
-        # AND stops at its first NULL or false operand; TRUE otherwise
-        'EvalAnd': dict(classes=[None, False, True], init='go',
-                        step=lambda s, c: ('return', None) if c is None else ('return', False) if c is False else ('next', 'go'),
-                        final=lambda s: True),
-        # OR is TRUE if any operand is true, else NULL if any is NULL, else FALSE
-        'EvalOr': dict(classes=[None, False, True], init='f',
-                       step=lambda s, c: ('return', True) if c is True else ('next', 'n' if (c is None or s == 'n') else 'f'),
-                       final=lambda s: None if s == 'n' else False),
-        # COALESCE: first non-NULL argument (false and empty values are not NULL), else NULL
-        'EvalCoalesce': dict(classes=[None, False, V], init='go',
-                             step=lambda s, c: ('next', 'go') if c is None else ('return', c),
-                             final=lambda s: None),
-    }
-    for name, spec in specs.items():
-        call, (init, step, final) = _bool_system(P, name, spec['classes'])
-        ok, msg, npairs, ntrans = finite.equivalent(init, step, final, spec['init'], spec['step'], spec['final'],
-                                                    spec['classes'], name)
-        # each iteration must evaluate the argument exactly once
-        for c in spec['classes']:
-            out = step(dict(init), c)
-            n = sum(1 for e in out[2] if e == ('eval',))
-            if n != 1 and ok:
-                ok, msg = False, f'evaluates the argument {n} times per iteration'
-        construct = f'{QC}:{name}.__call__'
-        if ok:
-            res.ok({'node': name, 'product_states': npairs, 'transitions': ntrans,
-                    'input_classes': [repr(c) for c in spec['classes']]})
-        else:
-            res.fail(construct, 'truth-table', f'{name} deviates from its NULL-aware truth table: {msg}', loc(call))
-    return res
 
 
 # ----------------------------------------------------------------------
@@ -391,8 +334,6 @@ def rule_promote(P) -> RuleResult:
 # ----------------------------------------------------------------------
 # R-OPSEM: each operator kind applies the Python operation of its name to its operands in order
 
-class Term:
-    pass
 
 
 def _term(P, fi: FuncInfo, kind=None):
@@ -655,8 +596,6 @@ def rule_opsem(P) -> RuleResult:
     return res
 
 
-def _between_and_form(t):
-    return False
 
 
 def _show(t):
